@@ -14,12 +14,13 @@ def build_rt_race():
 
 ID = "C17"
 PROP = {
+        "generate": [V.generate_locks],
         "props_module": "FV.Props.C17",
         "builders": {"rt": V.build_rt, "rtrace": build_rt_race},   # order matters: build_rt pins go.mod/go.sum first
         "suites": [("rt", "c17", {"quick": 6000, "thorough": 150000}), ("rtrace", "c17race", {"quick": 3000, "thorough": 40000})],
         "suite_kind": {"c17": "rt", "c17race": "rtrace"},
         "rule": "Byte-coded op histories (every byte string decodes to a history; 1..40 ops, every 64th up to 120; 8% raw random bytes) over several real FContexts/FProtocols: NewFContext, Clone, ReadRequestHeader on marshalled headers (with/without _opid, duplicate protocol), Add{Request,Response}Header, AddEphemeralProperty, SetTimeout (boundary durations), header/timeout/cid reads, the three copying accessors, writes/deletes on the returned maps, reads of them; keys include the reserved _opid/_cid/_timeout, values include every class of strconv.ParseInt input; the op id counter is started at 0, near 10^k boundaries, near 2^63, near 2^64 (wrap inside the history) or at random. Each history ends with a dump of every context and returned map. Per job additionally: lock census of context.go (go/ast) and a concurrent stress (8 goroutines on shared contexts); suite c17race repeats the stress (4..16 goroutines) in a -race build.",
-        "trusted": ["Modelled, not verified: Go maps (association lists, output sorted), sync/atomic.AddUint64 (a counter modulo 2^64), strconv.FormatUint/ParseInt, time.Duration arithmetic (int64 wrap)",
+        "trusted": ["harness/locks (go/ast, lexical, no type checker) regenerates FV/Generated/Locks.lean: per function the mutexes it locks, the calls it makes under a lock, re-locks and returns with a lock held; calls through interfaces / function values / other packages are not followed; FBaseProcessorFunction.writeMu is taken to be FBaseProcessor.writeMu", "Modelled, not verified: Go maps (association lists, output sorted), sync/atomic.AddUint64 (a counter modulo 2^64), strconv.FormatUint/ParseInt, time.Duration arithmetic (int64 wrap)",
                     "Assumed, checked only by census + stress: every FContextImpl method body is atomic (c.mu); Clone's three separately locked copies are modelled as one step"],
         "level_text": "Theorems (Lean 4, kernel-checked) over a model of lib/go/context.go + FProtocol.ReadRequestHeader with an EXPLICIT HEAP (a context is three references; Clone and the accessors allocate; the one alias the code has — received contexts share their FProtocol's ephemeral map — is in the model): for EVERY op history with fewer than 2^64 creations the op ids of all contexts produced by NewFContext/Clone/ReadRequestHeader are pairwise distinct (whatever the counter started at, wrap included) and parse back as uint64; right after Clone the clone's request headers equal the original's except _opid, response headers, ephemeral properties and timeout are equal and the original is unchanged; after a clone, for EVERY later op list, operations not aimed at the clone leave every read of the clone unchanged and operations aimed at the clone (or at nothing) leave every read of the original unchanged — proved from exclusive ownership of references as an invariant over arbitrary op lists; accessors return fresh maps, and no sequence of writes to returned maps changes any context. The model is tied to the code on every run by executing the same histories on real FContexts and comparing every observable.",
         "level_note": "Partial by design: data-race freedom (Go memory model) is NOT proved; the theorems take each FContextImpl method as one atomic step. That assumption is checked on the current source by a go/ast lock census (every access to the three maps inside a method follows c.mu.Lock/RLock) and exercised by a concurrent stress whose verdict is only 'no panic/fatal error, ids distinct, own writes read back' and by the same stress under the Go race detector (suite c17race, -race build of the harness: a report makes the suite exit 66 and the check fail) — evidence for the sampled schedules only. Clone takes the lock three times; an interleaved Clone copies three snapshots taken at different times (freshness, hence independence, is unaffected). Observed and modelled, not claimed as independent: contexts read from the same FProtocol (FSimpleServer: one per connection) share one ephemeral-properties map guarded by different mutexes. Ephemeral keys/values are strings in harness and model (interface{} in the code; unhashable keys panic in Go with c.mu held). NewFContext(\"\") (random correlation id) is outside the model. Trusted: Lean kernel (+ propext/Classical.choice/Quot.sound), the hand-written model, the harness and its oracle.",
